@@ -1,7 +1,7 @@
 (* CompactionProofs.v — theorems about the compaction model (Compaction.v). *)
 From Coq Require Import Lia Sorted.
 From KV Require MemtableProofs.
-From KV Require Import Compaction.
+From KV Require Import CompactionBefore.
 Open Scope N_scope.
 
 (* ---------- byte-string order ---------- *)
@@ -525,6 +525,142 @@ Proof.
   - destruct (select_range _ _ _); auto.
 Qed.
 
+(* ---------- the property at system level, and what the model of the pinned code says ---------- *)
+
+(* C12, last sentence: the database reopened on the compacted files, also after the flushed
+   log files were retired, reads the same as before — for every program. [cfull] makes sure
+   every acknowledged write is in an SSTable (the precondition of retiring the log). The
+   hypothesis excludes a recovery that ran out of memtable budget (C02's subject). *)
+Definition C12_reopen_statement : Prop :=
+  forall c k ops sizes key,
+    let s := crun c k ops in
+    lost_log (eng s) = false ->
+    cget (creopen s false) key = cget s key /\
+    cget (creopen (cfull s sizes) true) key = cget s key.
+
+(* C12, first sentence, for one compaction step on a database whose log is retired: what the
+   files read as (to a database opened on them alone) is not changed by the compaction *)
+Definition C12_merge_statement : Prop :=
+  forall c k ops sizes key,
+    let s := crun c k ops in
+    disk_read (ctrigger s sizes) key = disk_read s key.
+
+(* C12, deletion clause, as a rule on the filter: a deletion marker that is the newest version
+   among the inputs is kept whenever some file outside the inputs still holds the key *)
+Definition C12_tombstone_safe_statement : Prop :=
+  forall c k ops t key e f,
+    let s := crun c k ops in
+    select (c_maxmem (cfg (eng s))) (cc s) (disk s) = Some t ->
+    first_hit key (task_sources t) = Some e -> is_tomb e = true ->
+    In f (remove_files (t_inputs t) (disk s)) -> has key (d_entries f) = true ->
+    keep_of (tracked s) key = true.
+
+Definition kx : bytes := [120].   (* "x" *)
+Definition ka : bytes := [97].
+Definition kb : bytes := [98].
+Definition cfg2 : config := mkCfg 100000 2.
+Definition cfg8 : config := mkCfg 100000 8.
+Definition cc_off : ccfg := mkCC 1000000 1000000.
+
+(* (a) two level-0 files hold x; the L0->L1 task lists them oldest first, the first source wins *)
+Definition w_two_l0 : list cop := [CPut kx [1]; CFull []; CPut kx [2]; CFull []; CTrigger []].
+(* (d) delete after a restart: tracker empty, marker dropped, x=1 still in the level-1 file *)
+Definition w_tomb_restart : list cop :=
+  [CPut kx [1]; CFull []; CRange kx kx []; CPut ka [2]; CDel kx; CFull []; CReopen false; CRange ka ka []].
+(* (d) delete committed by a transaction is never tracked; target level 1 <= MaxLevelWithTombstones *)
+Definition w_tomb_tx : list cop :=
+  [CPut kx [1]; CFull []; CRange kx kx []; CRange kx kx []; CCommit [(kx, None); (ka, Some [2])];
+   CFull []; CPut kb [3]; CFull []; CTrigger []].
+(* (c) the level-1 output sorts after (is consulted before) the newer level-0 file *)
+Definition w_deeper : list cop := [CPut kx [1]; CFull []; CRange kx kx []; CPut kx [2]].
+(* no compaction at all: file numbers restart at 1 on every open *)
+Definition w_numbers : list cop :=
+  [CPut kx [1]; CFull []; CPut kx [2]; CFull []; CReopen true; CPut kx [3]].
+
+Theorem reopen_refuted_two_l0 :
+  let s := crun cfg2 cc_off w_two_l0 in
+  lost_log (eng s) = false /\ cget s kx = Some [2] /\ cget (creopen (cfull s []) true) kx = Some [1].
+Proof. vm_compute. auto. Qed.
+
+Theorem reopen_refuted_tomb_restart :
+  let s := crun cfg2 cc_off w_tomb_restart in
+  lost_log (eng s) = false /\ cget s kx = None /\ cget (creopen (cfull s []) true) kx = Some [1].
+Proof. vm_compute. auto. Qed.
+
+Theorem reopen_refuted_tomb_tx :
+  let s := crun cfg2 cc_off w_tomb_tx in
+  lost_log (eng s) = false /\ cget s kx = None /\ cget (creopen (cfull s []) true) kx = Some [1].
+Proof. vm_compute. auto. Qed.
+
+Theorem reopen_refuted_deeper :
+  let s := crun cfg2 cc_off w_deeper in
+  lost_log (eng s) = false /\ cget s kx = Some [2] /\ cget (creopen (cfull s []) true) kx = Some [1].
+Proof. vm_compute. auto. Qed.
+
+Theorem reopen_refuted_numbers :
+  let s := crun cfg8 cc_off w_numbers in
+  lost_log (eng s) = false /\ cget s kx = Some [3] /\ cget (creopen (cfull s []) true) kx = Some [2].
+Proof. vm_compute. auto. Qed.
+
+Theorem reopen_refuted : ~ C12_reopen_statement.
+Proof.
+  intro H. specialize (H cfg2 cc_off w_two_l0 [] kx).
+  destruct reopen_refuted_two_l0 as (A & B & C). destruct (H A) as [_ H2].
+  rewrite B, C in H2. discriminate.
+Qed.
+
+(* the merge itself: two level-0 tables, the one flushed later (timestamp 1) holds x=2, the
+   strategy selects both, the output holds x=1 *)
+Definition two_l0_dir : list dfile :=
+  [mkD (mkSst 0 1 0 [mkS kx 1 (Some [1])]) 0; mkD (mkSst 0 2 1 [mkS kx 2 (Some [2])]) 0].
+
+Theorem merge_refuted :
+  exists t, select 2 cc_off two_l0_dir = Some t /\
+            t_inputs t = two_l0_dir /\
+            exec_outputs (fun _ => false) 1000000 (task_sources t) = [[mkS kx 0 (Some [1])]].
+Proof. eexists. vm_compute. auto. Qed.
+
+(* on a database opened on the files alone: a compaction cycle changes what x reads as *)
+Definition w_merge : list cop :=
+  [CPut kx [1]; CFull []; CPut kx [2]; CFull []; CReopen true].
+Theorem merge_statement_refuted : ~ C12_merge_statement.
+Proof.
+  intro H. specialize (H cfg2 cc_off w_merge [] kx). vm_compute in H. discriminate.
+Qed.
+
+(* the state before the last compaction of w_tomb_tx *)
+Definition w_tomb_pre : list cop :=
+  [CPut kx [1]; CFull []; CRange kx kx []; CRange kx kx []; CCommit [(kx, None); (ka, Some [2])];
+   CFull []; CPut kb [3]; CFull []].
+
+Definition w_tomb_task : task :=
+  mkT [mkD (mkSst 0 2 3 [mkS ka 2 (Some [2]); mkS kx 2 None]) 0;
+       mkD (mkSst 0 3 4 [mkS ka 2 (Some [2]); mkS kb 3 (Some [3]); mkS kx 2 None]) 0] 1.
+Definition w_tomb_older : dfile := mkD (mkSst 2 1 2 [mkS kx 0 (Some [1])]) 0.
+
+(* the L0->L1 task merges the deletion marker of x (committed by a transaction, hence unknown
+   to the tracker) although x=1 lives in a level-2 file outside the inputs: the rule says drop *)
+Lemma tomb_w_select :
+  select (c_maxmem (cfg (eng (crun cfg2 cc_off w_tomb_pre)))) (cc (crun cfg2 cc_off w_tomb_pre))
+         (disk (crun cfg2 cc_off w_tomb_pre)) = Some w_tomb_task.
+Proof. vm_compute. reflexivity. Qed.
+Lemma tomb_w_first : first_hit kx (task_sources w_tomb_task) = Some (mkS kx 2 None).
+Proof. vm_compute. reflexivity. Qed.
+Lemma tomb_w_outside :
+  In w_tomb_older (remove_files (t_inputs w_tomb_task) (disk (crun cfg2 cc_off w_tomb_pre))).
+Proof. vm_compute. left. reflexivity. Qed.
+Lemma tomb_w_has : has kx (d_entries w_tomb_older) = true.
+Proof. vm_compute. reflexivity. Qed.
+Lemma tomb_w_keep : keep_of (tracked (crun cfg2 cc_off w_tomb_pre)) kx = false.
+Proof. vm_compute. reflexivity. Qed.
+
+Theorem tombstone_safe_refuted : ~ C12_tombstone_safe_statement.
+Proof.
+  intro H.
+  specialize (H cfg2 cc_off w_tomb_pre w_tomb_task kx _ w_tomb_older
+                tomb_w_select tomb_w_first eq_refl tomb_w_outside tomb_w_has).
+  cbv zeta in H. rewrite tomb_w_keep in H. discriminate.
+Qed.
 
 (* ---------- every file of every reachable directory is strictly ascending ---------- *)
 
@@ -722,3 +858,268 @@ Proof.
   - constructor; simpl; auto. apply mt_empty_ok.
 Qed.
 
+(* tasks take their inputs from the directory *)
+Lemma dinsert_in : forall x l t, In t (dinsert x l) <-> t = x \/ In t l.
+Proof.
+  induction l; simpl; intros. intuition.
+  destruct (dfile_le x a); simpl. intuition. rewrite IHl. intuition.
+Qed.
+Lemma dsort_in : forall l t, In t (dsort l) <-> In t l.
+Proof. induction l; simpl; intros. tauto. rewrite dinsert_in, IHl. intuition. Qed.
+
+Lemma level_files_incl : forall L dir, incl (level_files L dir) dir.
+Proof. unfold level_files, incl. intros. apply filter_In in H. destruct H. apply dsort_in; auto. Qed.
+
+Lemma firstn_incl : forall (A : Type) n (l : list A), incl (firstn n l) l.
+Proof. induction n; destruct l; simpl; unfold incl; simpl; intros; auto. tauto. destruct H; auto. right. apply IHn; auto. Qed.
+
+Lemma select_levels_incl : forall n L r dir t, select_levels n L r dir = Some t -> incl (t_inputs t) dir.
+Proof.
+  induction n; simpl; intros. discriminate.
+  destruct (level_size L dir =? 0). eauto.
+  destruct ((level_size (L + 1) dir =? 0) && negb (isnil_files (level_files L dir))).
+  - unfold select_promotion in H. destruct (level_files L dir) eqn:E; inversion H; subst. simpl.
+    intros x [<-|[]]. apply (level_files_incl L). rewrite E. simpl; auto.
+  - destruct (r * level_size (L + 1) dir <=? level_size L dir). 2: eauto.
+    unfold select_overlapping in H. destruct (level_files L dir) eqn:E; inversion H; subst. simpl.
+    intros x [<-|Hx]. apply (level_files_incl L). rewrite E. simpl; auto.
+    apply filter_In in Hx. destruct Hx. apply (level_files_incl (L + 1)); auto.
+Qed.
+
+Lemma select_incl : forall maxmem k dir t, select maxmem k dir = Some t -> incl (t_inputs t) dir.
+Proof.
+  unfold select. intros. destruct (maxmem <=? _).
+  - unfold select_l0 in H. destruct (_ <? 2); try discriminate.
+    destruct (l0_range _) as [mn mx]. inversion H; subst. simpl.
+    intros x Hx. apply in_app_iff in Hx. destruct Hx.
+    + apply (level_files_incl 0). eapply firstn_incl; eauto.
+    + apply filter_In in H0. destruct H0. apply (level_files_incl 1); auto.
+  - eapply select_levels_incl; eauto.
+Qed.
+
+Lemma range_inputs_incl : forall n L lo hi dir, incl (range_inputs n L lo hi dir) dir.
+Proof.
+  induction n; simpl; intros; intros x Hx.
+  - apply filter_In in Hx. destruct Hx. apply (level_files_incl L); auto.
+  - apply in_app_iff in Hx. destruct Hx. apply filter_In in H. destruct H. apply (level_files_incl L); auto.
+    eapply IHn; eauto.
+Qed.
+
+Lemma select_range_incl : forall lo hi dir t, select_range lo hi dir = Some t -> incl (t_inputs t) dir.
+Proof.
+  unfold select_range. intros. destruct (range_inputs _ _ _ _ _) eqn:E; inversion H; subst. simpl.
+  rewrite <- E. apply range_inputs_incl.
+Qed.
+
+Lemma task_sources_ok : forall t dir, Forall dfile_ok dir -> incl (t_inputs t) dir ->
+  Forall asc (task_sources t).
+Proof.
+  unfold task_sources. intros. rewrite Forall_forall in *. intros x Hx.
+  apply in_map_iff in Hx. destruct Hx as (f & <- & Hf). apply filter_In in Hf. destruct Hf.
+  apply H. auto.
+Qed.
+
+Lemma name_outputs_entries : forall target outs i clock sizes,
+  map d_entries (name_outputs target i clock sizes outs) = outs.
+Proof. induction outs; simpl; intros; auto. f_equal. auto. Qed.
+
+Lemma name_outputs_Forall : forall (P : list sentry -> Prop) (Q : dfile -> Prop) target clock sizes,
+  (forall es i, P es -> Q (mkD (mkSst target (N.of_nat i + 1) (clock + N.of_nat i) es) (nth_size i sizes))) ->
+  forall outs i, Forall P outs -> Forall Q (name_outputs target i clock sizes outs).
+Proof. induction outs; simpl; intros; constructor; inversion H0; subst; auto. Qed.
+
+(* the outputs of a task whose inputs are ascending: ascending across the files in the order
+   they are numbered; every file non-empty, at most SSTableMaxSize entries; all on the target
+   level *)
+Theorem task_outputs_sorted : forall keep k clock sizes t dir,
+  Forall dfile_ok dir -> incl (t_inputs t) dir ->
+  let outs := task_outputs keep k clock sizes t in
+  asc (concat (map d_entries outs)) /\
+  Forall dfile_ok outs /\
+  (1 <= cc_sstmax k -> Forall (fun f => chunk_ok (cc_sstmax k) (d_entries f)) outs) /\
+  Forall (fun f => d_level f = t_target t) outs.
+Proof.
+  intros. unfold outs, task_outputs.
+  pose proof (task_sources_ok t dir H H0) as Hs.
+  rewrite name_outputs_entries. split; [|split; [|split]].
+  - apply exec_outputs_sorted; auto.
+  - apply name_outputs_Forall with (P := asc); auto.
+    apply asc_concat_each. apply exec_outputs_sorted; auto.
+  - intro. apply name_outputs_Forall with (P := chunk_ok (cc_sstmax k)); auto.
+    apply exec_outputs_chunks; auto.
+  - apply name_outputs_Forall with (P := fun _ => True); auto.
+    apply Forall_forall. auto.
+Qed.
+
+Record cst_ok (s : cst) : Prop := mkCO { co_eng : eng_ok (eng s); co_disk : Forall dfile_ok (disk s) }.
+
+Lemma with_sizes_ok : forall l i z, Forall file_ok l -> Forall dfile_ok (with_sizes i z l).
+Proof. induction l; simpl; intros; constructor; inversion H; subst; auto. Qed.
+
+Lemma skipn_Forall : forall (A : Type) (P : A -> Prop) n l, Forall P l -> Forall P (skipn n l).
+Proof. induction n; destruct l; simpl; auto. intros. inversion H; auto. Qed.
+
+Lemma cflush_ok : forall s z, cst_ok s -> cst_ok (cflush s z).
+Proof.
+  intros s z [A B]. pose proof (flush_ok _ A). constructor; simpl; auto.
+  apply Forall_app. split; auto. apply with_sizes_ok. apply skipn_Forall. destruct H; auto.
+Qed.
+
+Lemma remove_files_ok : forall ins dir, Forall dfile_ok dir -> Forall dfile_ok (remove_files ins dir).
+Proof.
+  unfold remove_files. intros. rewrite Forall_forall in *. intros. apply filter_In in H0. destruct H0. auto.
+Qed.
+
+Lemma set_clock_ok : forall e c, eng_ok e -> eng_ok (set_clock e c).
+Proof. intros e c [A B C]. constructor; auto. Qed.
+
+Lemma cstep_ok : forall o s, cst_ok s -> cst_ok (cstep s o).
+Proof.
+  destruct o; simpl; intros s0 [A B]; auto.
+  - unfold cput. pose proof (put_ok (eng s0) k v A). destruct (put (eng s0) k v). constructor; auto.
+  - unfold cdel. pose proof (del_ok (eng s0) k A). destruct (del (eng s0) k). constructor; auto.
+  - unfold cbatch. pose proof (apply_batch_ok (eng s0) ops A). destruct (apply_batch (eng s0) ops). constructor; auto.
+  - unfold ccommit. pose proof (tx_commit_ok (eng s0) ops A). destruct (tx_commit (eng s0) ops). constructor; auto.
+  - apply cflush_ok. constructor; auto.
+  - unfold cfull.
+    assert (H1 : cst_ok (cflush s0 sizes)) by (apply cflush_ok; constructor; auto).
+    destruct (pending (eng s0)).
+    + destruct H1. constructor; auto.
+    + pose proof (cflush_ok _ (skipn (nfresh s0) sizes) H1) as [C D]. constructor; auto.
+  - unfold ctrigger. destruct (select _ _ _) eqn:E. 2: constructor; auto.
+    constructor; simpl. apply set_clock_ok; auto.
+    apply Forall_app. split. apply remove_files_ok; auto.
+    eapply task_outputs_sorted; eauto. eapply select_incl; eauto.
+  - unfold crange. destruct (select_range _ _ _) eqn:E. 2: constructor; auto.
+    constructor; simpl. apply set_clock_ok; auto.
+    apply Forall_app. split. apply remove_files_ok; auto.
+    eapply task_outputs_sorted; eauto. eapply select_range_incl; eauto.
+  - unfold creopen. constructor; simpl; auto.
+    apply reopen_ok. simpl. destruct retire; simpl; rewrite Forall_forall in *; intros x Hx;
+      apply in_map_iff in Hx; destruct Hx as (f & <- & Hf); apply B; auto.
+  - constructor; auto.
+Qed.
+
+(* in every reachable state — any workload, any sequence of flushes, automatic/triggered/range
+   compactions and restarts — every file of the SST directory is strictly ascending by key
+   (sorted, no duplicate keys) *)
+Theorem reachable_files_sorted : forall c k ops, cst_ok (crun c k ops).
+Proof.
+  intros. unfold crun.
+  assert (cst_ok (cinit c k)).
+  { constructor; simpl. constructor; simpl; auto. apply mt_empty_ok. constructor. }
+  revert H. generalize (cinit c k). induction ops; simpl; auto. intros. apply IHops. apply cstep_ok; auto.
+Qed.
+
+(* ---------- reopening is stable ---------- *)
+
+Lemma get_fields : forall e1 e2, active e1 = active e2 -> imms e1 = imms e2 -> ssts e1 = ssts e2 ->
+  forall k, get e1 k = get e2 k.
+Proof. intros. unfold get, mem_layers. rewrite H, H0, H1. auto. Qed.
+
+Lemma reopen_twice : forall e D k, ssts e = D ->
+  get (reopen (set_ssts (reopen e) D)) k = get (reopen e) k.
+Proof.
+  intros e D k HD.
+  assert (exists f fs, match wal_files e with [] => [[]] | f => f end = f :: fs) as (f & fs & F).
+  { destruct (wal_files e); eauto. }
+  unfold reopen at 2 3. rewrite F.
+  destruct (recover_tables (cfg e) (concat (f :: fs)) [mt_empty] 0) as [[tbls maxseq]|] eqn:R.
+  - apply get_fields; unfold reopen; cbn [cfg wal_files ssts set_ssts]; rewrite R; simpl; rewrite ?HD; auto.
+  - apply get_fields; unfold reopen; cbn [cfg wal_files ssts set_ssts]; simpl; rewrite ?HD; auto.
+Qed.
+
+(* a second reopen (log kept) without anything in between reads exactly what the first one
+   read: what a reopen shows is a function of the directory and the log alone *)
+Theorem reopen_stable : forall s r k, cget (creopen (creopen s r) false) k = cget (creopen s r) k.
+Proof.
+  intros. unfold cget, creopen. simpl.
+  set (e1 := if r then upd_wal (eng s) (wal_next (eng s)) (skipn (retirable s) (wal_files (eng s))) else eng s).
+  apply (reopen_twice (set_ssts e1 (map d_sst (disk s)))). auto.
+Qed.
+
+(* ---------- non-vacuity ---------- *)
+
+(* merge: three sources, the first holding a key wins; ascending result *)
+Example merge_example :
+  merge [[mkS ka 7 (Some [1]); mkS kx 9 None]; [mkS ka 3 (Some [2]); mkS kb 4 (Some [3])]; [mkS kx 1 (Some [4])]]
+  = [mkS ka 7 (Some [1]); mkS kb 4 (Some [3]); mkS kx 9 None].
+Proof. vm_compute. reflexivity. Qed.
+
+(* executor: the deletion marker of x is dropped (keep = false), outputs split after 1 entry *)
+Example exec_example :
+  exec_outputs (fun _ => false) 1
+    [[mkS ka 7 (Some [1]); mkS kx 9 None]; [mkS ka 3 (Some [2]); mkS kb 4 (Some [3])]; [mkS kx 1 (Some [4])]]
+  = [[mkS ka 0 (Some [1])]; [mkS kb 0 (Some [3])]].
+Proof. vm_compute. reflexivity. Qed.
+
+(* view_preserved applies: recency order newest first = [t3; t2; t1; t0]; the task merges t2 and
+   t1 listed newest first; t0 (older, behind) does not hold b, whose marker is dropped *)
+Example view_preserved_example :
+  let t3 := [mkS ka 9 (Some [9])] in
+  let t2 := [mkS kb 8 None; mkS kx 8 (Some [8])] in
+  let t1 := [mkS kb 5 (Some [5]); mkS kx 5 (Some [5])] in
+  let t0 := [mkS kx 1 (Some [1])] in
+  let outs := exec_outputs (fun _ => false) 10 [t2; t1] in
+  outs = [[mkS kx 0 (Some [8])]] /\
+  (forall k, In k [ka; kb; kx] -> read ([t3] ++ outs ++ [t0]) k = read [t3; t2; t1; t0] k).
+Proof.
+  split. vm_compute. reflexivity.
+  intros k [<-|[<-|[<-|[]]]]; vm_compute; reflexivity.
+Qed.
+
+Example view_preserved_hyps_example :
+  let t2 := [mkS kb 8 None; mkS kx 8 (Some [8])] in
+  let t1 := [mkS kb 5 (Some [5]); mkS kx 5 (Some [5])] in
+  let t0 := [mkS kx 1 (Some [1])] in
+  filter (has kx) [t2; t1; t0] = [] ++ filter (has kx) [t2; t1] ++ [t0] /\
+  filter (has kx) (exec_outputs (fun _ => false) 10 [t2; t1] ++ [t0]) =
+    [] ++ filter (has kx) (exec_outputs (fun _ => false) 10 [t2; t1]) ++ [t0].
+Proof. split; vm_compute; reflexivity. Qed.
+
+(* a tracked delete keeps its marker through a later compaction of the same process *)
+Example tombstone_tracked_example :
+  let s := crun cfg2 cc_off [CPut kx [1]; CFull []; CRange kx kx []; CPut ka [2]; CDel kx; CFull []; CRange ka ka []] in
+  keep_of (tracked s) kx = true /\
+  map (fun f => (d_level f, d_entries f)) (disk s) =
+    [(1, [mkS kx 0 (Some [1])]); (2, [mkS ka 0 (Some [2]); mkS kx 0 None])].
+Proof. vm_compute. auto. Qed.
+
+(* reachable_files_sorted on a run with splits and three kinds of compaction *)
+Example reachable_example :
+  let s := crun cfg2 (mkCC 2 2)
+    [CPut kx [1]; CPut ka [1]; CFull [100]; CPut kb [2]; CDel ka; CFull [100]; CTrigger [100; 100];
+     CPut kx [3]; CFull [500]; CTrigger [100]; CRange ka kx [100; 100]] in
+  map (fun f => (d_level f, s_num (d_sst f), map sk (d_entries f))) (disk s) =
+    [(2, 1, [ka; kb]); (2, 2, [kx])].
+Proof. vm_compute. reflexivity. Qed.
+
+(* file numbers restart at 1 after a reopen: the L0->L1 cycle takes the NEW 0_000001 and the old
+   0_000002 and leaves the old 0_000003 in level 0; the next (range) compaction lists level 0
+   before level 1, so the stale x=1 of the left-behind file beats the newer x=2 of level 1 *)
+Definition w_shallower : list cop :=
+  [CPut ka [0]; CFull []; CRange ka ka []; CPut kx [1]; CFull []; CFull []; CReopen true;
+   CPut kx [2]; CFull []; CTrigger []].
+
+Theorem refuted_shallower_older :
+  let s0 := crun cfg2 cc_off w_shallower in
+  let s := crange s0 kx kx [] in
+  map (fun f => (d_level f, d_entries f)) (dsort (disk s0)) =
+    [(0, [mkS ka 1 (Some [0]); mkS kx 2 (Some [1])]); (1, [mkS ka 0 (Some [0]); mkS kx 0 (Some [2])])] /\
+  map (fun f => (d_level f, d_entries f)) (disk s) = [(2, [mkS ka 0 (Some [0]); mkS kx 0 (Some [1])])] /\
+  lost_log (eng s) = false /\ cget s kx = Some [2] /\ cget (creopen s true) kx = Some [1].
+Proof. vm_compute. auto 6. Qed.
+
+(* ---------- the concrete reading of a directory is [read] under the name order ---------- *)
+
+(* what a database opened on the files alone reads = [read] with the tables consulted in the
+   reverse of the file-name order; for every reachable state (files ascending) *)
+Theorem disk_read_as_read : forall c k ops key,
+  let s := crun c k ops in
+  disk_read s key = read (map s_entries (rev (sst_sort (map d_sst (disk s))))) key.
+Proof.
+  intros. unfold disk_read, ssts_read. apply ssts_get_read.
+  pose proof (co_disk _ (reachable_files_sorted c k ops)) as H. fold s in H.
+  rewrite Forall_forall in *. intros t Ht. apply in_rev in Ht. apply (proj1 (sst_sort_in' _ _)) in Ht.
+  apply in_map_iff in Ht. destruct Ht as (f & <- & Hf). apply H in Hf. exact Hf.
+Qed.
